@@ -100,7 +100,7 @@ def run(d, paths, cfg, trace=False, **kw):
     return o
 
 
-def run_direct(d, paths, spec, use_buffer_dir=False):
+def run_direct(d, paths, spec, use_buffer_dir=False, buffer_dir=None):
     """second driver: call run_type_assignment_on_h5ad directly (the orchestration of run_mapping -
     reading the tree, flatten/drop, marker cache - is replicated with the library's own public functions).
     With use_buffer_dir=False results travel through the multiprocessing.Manager list (completion order).
@@ -135,7 +135,9 @@ def run_direct(d, paths, spec, use_buffer_dir=False):
             tmp = d / 'direct_tmp'
             tmp.mkdir(exist_ok=True)
             buf = None
-            if use_buffer_dir:
+            if buffer_dir is not None:
+                buf = pathlib.Path(buffer_dir)
+            elif use_buffer_dir:
                 buf = d / 'direct_buffer'
                 buf.mkdir(exist_ok=True)
             if cfg.get('bootstrap_factor_lookup'):
